@@ -171,6 +171,21 @@ contract(
 )
 
 
+# the same function, summarised for callers that only need WHAT KIND of value comes back (getVariableKerningPairs#light): a number
+# or the scalar itself, untouched.  (No slice of the value list in the summary: the callers' obligations then stay outside the
+# "seq.extract under quantifiers" class on which a z3-only `unsat` is not accepted.)
+contract(
+    "ufo2ft.util:collapse_varscalar",
+    name="kind",
+    props=["C10"],
+    params={"varscalar": Ref("VariableScalar"), "threshold": Const(0)},
+    returns=Union(REAL, Ref("VariableScalar")),
+    requires=["len(varscalar.values.d) >= 1"],
+    ensures={"number-or-same": f"(result == {_V}[0]) if isinstance(result, (int, float)) else (result == varscalar)"},
+    canaries={"always-first": f"result == {_V}[0]"},
+)
+
+
 def _cv_cases(rng, n):
     out = []
     for _ in range(n):
@@ -191,6 +206,7 @@ def _cv_build(d):
 
 
 CONTRACTS["ufo2ft.util:collapse_varscalar"].runtime = Runtime(_cv_cases, _cv_build)
+CONTRACTS["ufo2ft.util:collapse_varscalar#kind"].runtime = Runtime(_cv_cases, _cv_build)
 
 
 # =====================================================================================================
@@ -686,17 +702,153 @@ contract(
 # ---- probe: getVariableKerningPairs (NOT registered) ----------------------------------------------------------------------
 from pyvc.api import TupleOf as _TupleOf  # noqa: E402
 
-cls("VKFont", fields={"kerning": Dict(Tuple(STR, STR), REAL)}, notes="source UFO: kerning")
-cls("VKSource", fields={"layerName": Opt(STR), "font": Ref("VKFont"), "location": LOCD})
-cls("VKDoc", fields={"sources": List(Ref("VKSource")), "axes": List(Ref("DSAxis"))}, isa=("DesignSpaceDocument",))
+from . import c05 as _c05  # noqa: E402  (SIDE_T, KPairT, quantize)
+
+_PAIRKEY = Tuple(STR, STR)
+CLASSES["GlyphLayer"].fields["kerning"] = Dict(_PAIRKEY, REAL)  # source UFO: font.kerning
+
+
+CLASSES["DSDoc"].fields["default"] = Opt(Ref("DSSource"))  # what findDefault() finds (and stores): the source at the default location
+
+
+def _ds_find_default(ex, st, self, args, kwargs, node):
+    """designspaceLib DesignSpaceDocument.findDefault(): the source at the default location of all axes, or None; the library
+    stores it in `self.default` and returns it (modelled as reading that field: which source it is is the library's business)"""
+    return ex.read_field(st, self, "default")
+
+
+CLASSES["DSDoc"].methods["findDefault"] = _ds_find_default
 cls("VKOpts", fields={"quantization": INT})
+
+
+@specfn(REAL, pair=_PAIRKEY, kerning=Dict(_PAIRKEY, REAL), groups=Dict(STR, _TupleOf(STR)), g1=Dict(STR, STR), g2=Dict(STR, STR), opaque=True)
+def k10_lookup(pair, kerning, groups, g1, g2):
+    """fontTools.ufoLib.kerning.lookupKerningValue (library): the UFO kerning value of the pair with UFO precedence"""
+    from fontTools.ufoLib.kerning import lookupKerningValue
+
+    return lookupKerningValue(pair, kerning, groups, glyphToFirstGroup=g1, glyphToSecondGroup=g2)
+
+
+def _lookup_model(ex, st, args, kwargs, node):
+    """fontTools.ufoLib.kerning.lookupKerningValue: a pure function of its arguments (no effects)"""
+    from pyvc.core import Val, lift
+
+    pair, kerning, groups = args[:3]
+    g1, g2 = kwargs["glyphToFirstGroup"], kwargs["glyphToSecondGroup"]
+    from pyvc.api import SPECFNS
+
+    return ex.apply_spec(SPECFNS["k10_lookup"], [pair, kerning, groups, g1, g2], st, node)
+
+
+_VKVAL = Union(REAL, Ref("VariableScalar"))
+cls("VKPair", fields={"side1": _c05.SIDE_T, "side2": _c05.SIDE_T, "value": _VKVAL}, repo="ufo2ft.featureWriters.kernFeatureWriter:KerningPair", isa=("KerningPair",),
+    notes="KerningPair of a variable font: the value is a number or a VariableScalar")
+for _prop, _side in (("firstIsClass", "side1"), ("secondIsClass", "side2")):
+    contract(
+        f"ufo2ft.featureWriters.kernFeatureWriter:KerningPair.{_prop}",
+        name="VKPair",
+        props=["C10"],
+        params={"self": Ref("VKPair")},
+        returns=BOOL,
+        ensures={"is-tuple": f"result == isinstance(self.{_side}, tuple)"},
+        canaries={"never": "not result"},
+    )
+
+
+def _vkp_new(ex, st, args, kwargs, node):
+    """dataclass-generated constructor of KerningPair (as c05._kp_new_obj), producing a VKPair object"""
+    names = ["side1", "side2", "value"]
+    bound = dict(zip(names, args))
+    bound.update(kwargs)
+    o = ex.new_object(st, "VKPair")
+    for n in names:
+        ex.write_field(st, o, n, ex.deopt(bound[n], st, node), node)
+    return o
+
+
+_VKP = "ufo2ft.featureWriters.kernFeatureWriter:KernFeatureWriter.getVariableKerningPairs"
+_KNOWN = "((isinstance({k}[0], tuple) or {k}[0] in glyphSet) and (isinstance({k}[1], tuple) or {k}[1] in glyphSet))"
+_VK_INV = {
+    # every key made so far: a class side is the class's glyph tuple, a glyph side is a glyph of the glyph set
+    "keys-known": "all(" + _KNOWN.format(k="k") + " for k in set(kerning_pairs_in_progress))",
+}
 contract(
-    "ufo2ft.featureWriters.kernFeatureWriter:KernFeatureWriter.getVariableKerningPairs",
-    name="probe",
-    props=[],
-    params={"designspace": Ref("VKDoc"), "side1Classes": Dict(STR, _TupleOf(STR)), "side2Classes": Dict(STR, _TupleOf(STR)),
+    _VKP,
+    name="light",
+    props=["C10"],
+    params={"designspace": Ref("DSDoc"), "side1Classes": Dict(STR, _TupleOf(STR)), "side2Classes": Dict(STR, _TupleOf(STR)),
             "glyphSet": Set(STR), "options": Ref("VKOpts")},
-    returns=List(Ref("KPairT")),
-    ensures={"t": "True"},
-    canaries={"e": "len(result) == 0"},
+    returns=List(Ref("VKPair")),
+    models={"fontTools.ufoLib.kerning.lookupKerningValue": _lookup_model,
+            "ufo2ft.featureWriters.kernFeatureWriter.KerningPair": _vkp_new},
+    requires=[
+        "options.quantization >= 1",  # as for quantize
+        # the designspace: axis names / tags are identifiers; what getAxis returns (trusted library) - as for _getAnchor
+        "designspace.names_distinct", "designspace.tags_distinct", "designspace.library_axioms",
+    ],
+    raises={
+        # the two assertions of the code: the group names of the two sides are disjoint (getKerningGroups keys them by their
+        # public.kern1. / public.kern2. names), and the designspace has a default source
+        "AssertionError": "any(k in side2Classes for k in set(side1Classes)) or designspace.default is None",
+    },
+    # VariableScalars and KerningPairs are created (and only those are written); declared for the whole classes
+    modifies=["VariableScalar.values", "VSValues.d", "VKPair.side1", "VKPair.side2", "VKPair.value"],
+    ensures={
+        # every side of every resulting pair is a class (the glyph tuple of the group) or a glyph of the glyph set
+        "sides-known": "all((isinstance(result[n].side1, tuple) or result[n].side1 in glyphSet) and (isinstance(result[n].side2, tuple) or result[n].side2 in glyphSet) for n in range(len(result)))",
+        # no class-to-class pair with the constant value zero is emitted
+        "no-zero-class-pair": "all(not (isinstance(result[n].side1, tuple) and isinstance(result[n].side2, tuple) and result[n].value == 0) for n in range(len(result)))",
+    },
+    canaries={"e": "len(result) == 0", "all-class": "all(isinstance(result[n].side1, tuple) for n in range(len(result)))"},
+    locals={"all_pairs": Set(_PAIRKEY), "kerning_pairs_in_progress": Dict(Tuple(_c05.SIDE_T, _c05.SIDE_T), Ref("VariableScalar")),
+            "side1": _c05.SIDE_T, "side2": _c05.SIDE_T, "value": REAL, "value@L553": _VKVAL, "result": List(Ref("VKPair"))},
+    globals={"LOCATION": LOCATION},
+    calls={"ufo2ft.util:collapse_varscalar": "ufo2ft.util:collapse_varscalar#kind"},
+    # per entry (assertion at the statement that records a value; a proved obligation): values are recorded for FULL sources only,
+    # and the value recorded for this pair at THIS source's user-space location is the quantised UFO lookup of the pair in this
+    # source's kerning
+    hints={
+        "var_scalar.values[location] = value": [
+            "source.layerName is None and kerning == source.font.kerning and var_scalar.values.d[location] == k5_quant(k10_lookup(pair, kerning, unified_groups, glyphToFirstGroup, glyphToSecondGroup), quantization)",
+        ],
+    },
+    loops={
+        "for source in designspace.sources#2": Loop(index="a", invariants=_VK_INV),
+        "for pair in all_pairs": Loop(index="b", invariants=_VK_INV),
+        "for ((side1, side2), value) in kerning_pairs_in_progress.items()": Loop(index="c", invariants={
+            **_VK_INV,
+            "out-known": "all((isinstance(result[n].side1, tuple) or result[n].side1 in glyphSet) and (isinstance(result[n].side2, tuple) or result[n].side2 in glyphSet) for n in range(len(result)))",
+            "out-alloc": "all(allocated(result[n]) for n in range(len(result)))",  # (the pairs made so far exist: a new pair is none of them)
+            "out-zero": "all(not (isinstance(result[n].side1, tuple) and isinstance(result[n].side2, tuple) and result[n].value == 0) for n in range(len(result)))",
+        }),
+    },
 )
+
+
+def _vkp_cases(rng, n):
+    from vcheck.hooks import c10 as h
+
+    return [{"case": h.gen_case(rng, k)} for k in range(n)]
+
+
+def _vkp_build(d):
+    from collections import OrderedDict
+    from types import SimpleNamespace
+
+    from ufo2ft.featureWriters.kernFeatureWriter import KernFeatureWriter
+    from vcheck.hooks import c10 as h
+
+    case = d["case"]
+    ds = h.build_designspace(case)
+    w = KernFeatureWriter(quantization=case["quantization"])
+    glyphset = OrderedDict((g.name, g) for g in ds.findDefault().font)
+    w.context = SimpleNamespace(isVariable=True, font=ds, glyphSet=glyphset)
+    s1, s2 = w.getKerningGroups()
+    return {"designspace": ds, "side1Classes": dict(s1), "side2Classes": dict(s2), "glyphSet": set(glyphset), "options": w.options}
+
+
+CLASSES["DSDoc"].views["default"] = lambda o: o.findDefault()  # (the library fills the attribute in on the first call)
+CLASSES["GlyphLayer"].views["kerning"] = lambda o: dict(o.kerning)
+CONTRACTS[_VKP + "#light"].runtime = Runtime(
+    _vkp_cases, _vkp_build, call=lambda fn, a: fn(a["designspace"], a["side1Classes"], a["side2Classes"], a["glyphSet"], a["options"]))
+
